@@ -300,6 +300,15 @@ Proof.
     rewrite F, T, bytes_eqb_refl. destruct (ctx_sampled e); reflexivity.
 Qed.
 
+Lemma spec_participants_ok s e g rnd x :
+  spec_participants s (start_span s e g rnd x)
+    (st_flags (start_span s ctx_invalid (st_tid (start_span s e g rnd x)) rnd x)) = [].
+Proof.
+  destruct s as [| |r|d]; try reflexivity. cbn [spec_participants]. apply check_true. apply Z.eqb_eq.
+  apply participants_agree. change (ctx_valid ctx_invalid) with false. cbv iota.
+  destruct (span_sampled_flag_is_decision (SRatio r) e g rnd x) as [_ B]. cbv zeta in B. now rewrite B.
+Qed.
+
 (* printers and parsers of observations agree *)
 Lemma parse_print_decision d : parse_decision (print_decision d) = Some d.
 Proof. destruct d; reflexivity. Qed.
@@ -321,7 +330,8 @@ Proof.
   - rewrite !parse_print_decision. apply spec_mono_ok.
   - unfold print_result. cbn [app]. rewrite !parse_print_result.
     rewrite spec_dep_ok, !spec_ss_ok. reflexivity.
-  - rewrite parse_print_started. apply spec_span_ok.
+  - cbv zeta. unfold print_started at 1. cbn [app]. fold (print_started (start_span s p gen_tid random x)).
+    rewrite parse_print_started, spec_span_ok. cbn [app]. apply spec_participants_ok.
   - destruct (description s); reflexivity.
 Qed.
 
